@@ -1040,7 +1040,9 @@ class PeriodicDataFrame(DataFrame):
 
     def start(self):
         if not self.continue_[0]:
-            self.continue_[0] = True
+            # every polling loop gets a flag cell of its own: a loop of an
+            # earlier start() that is still sleeping must not be revived
+            self.continue_ = [True]
             self.loop.add_callback(self._cb, self.interval, self.source,
                                    self.continue_)
 
